@@ -161,6 +161,23 @@ func (w *World) registerIntrinsics() {
 	h["vIteB"] = func(m *Machine, fn *ssa.Function, a []Value) Value {
 		return m.boolVal(m.ctx.BIte(m.boolTerm(a[0]), m.boolTerm(a[1]), m.boolTerm(a[2])))
 	}
+	// vWideEq(hi, lo, t2, t1, t0): hi*2^64 + lo == t2*2^64 + t1*2^32 + t0 over
+	// the mathematical values of the uint64 arguments.
+	h["vWideEq"] = func(m *Machine, fn *ssa.Function, a []Value) Value {
+		k := intKind{64, false}
+		c := m.ctx
+		p64, p32 := sym.Pow2(64), sym.Pow2(32)
+		lhs := c.Add(c.Scale(m.lin(a[0], k), p64), m.lin(a[1], k))
+		rhs := c.Add(c.Add(c.Scale(m.lin(a[2], k), p64), c.Scale(m.lin(a[3], k), p32)), m.lin(a[4], k))
+		return m.boolVal(c.Eq(lhs, rhs))
+	}
+	// vMul128Check(a, b, hi, lo): hi*2^64 + lo == a*b over mathematical integers.
+	h["vMul128Check"] = func(m *Machine, fn *ssa.Function, a []Value) Value {
+		k := intKind{64, false}
+		c := m.ctx
+		lhs := c.Add(c.Scale(m.lin(a[2], k), sym.Pow2(64)), m.lin(a[3], k))
+		return m.boolVal(c.Eq(lhs, c.Mul(m.lin(a[0], k), m.lin(a[1], k))))
+	}
 	h["vSymbolic"] = func(m *Machine, fn *ssa.Function, a []Value) Value { return true }
 	h["vFreeze"] = func(m *Machine, fn *ssa.Function, a []Value) Value {
 		freezeValue(a[0], concStr(m, a[1]), map[*Cell]bool{})
